@@ -14,6 +14,11 @@ BUILTINS = ['len', 'print']
 MAXCALLS = 4
 
 
+# (module, one public name it exports to `import *`); builtin modules without a file among them
+STD_STARS = [('gc', 'collect'), ('errno', 'ENOENT'), ('string', 'digits'), ('keyword', 'iskeyword'), ('faulthandler', 'dump_traceback'),
+             ('pwd', 'getpwnam'), ('time', 'sleep'), ('math', 'pi'), ('textwrap', 'dedent'), ('atexit', 'register')]
+
+
 class MGen(object):
     def __init__(self, rng, max_depth=3, names=None):
         self.rng = rng
@@ -25,11 +30,17 @@ class MGen(object):
         self.nk = 0
         self.nstmt = 0
         self.nstar = 0
+        self.nstd = 0
+        self.std_used = []
         self.seen = [set()]       # per open scope: names bound so far in the text (reads are biased towards them)
 
     def site(self):
         self.nsite += 1
         return self.nsite
+
+    def std_next(self):
+        rest = [x for x in STD_STARS if x[0] not in self.std_used]
+        return self.rng.choice(rest)
 
     def rid(self):
         self.nrid += 1
@@ -81,6 +92,8 @@ class MGen(object):
                 break
             s = self.stmt(kind, depth, enclosing)
             out.append(s)
+            if s['k'] == 'star' and s.get('std') and self.rng.random() < 0.7:
+                out.append({'k': 'read', 'atoms': [[s['names'][0][0], self.rid()]]})
             if s['k'] in ('def', 'lambda') and self.rng.random() < 0.8:
                 if self.rng.random() < 0.3:
                     out.append(self.stmt(kind, 0, enclosing))
@@ -131,6 +144,14 @@ class MGen(object):
                 # import forms: each import statement names a module of its own, so the value read later identifies the statement
                 if kind == 'module' and self.rng.random() < 0.35:
                     self.nstar += 1
+                    if self.rng.random() < 0.45 and self.nstd < len(STD_STARS):
+                        # a standard-library module (some builtin, some not loaded by an interpreter at start-up): one of its public names joins the alphabet
+                        mod, export = self.std_next()
+                        self.nstd += 1
+                        self.std_used.append(mod)
+                        if export not in self.names:
+                            self.names = list(self.names) + [export]
+                        return {'k': 'star', 'mod': mod, 'std': True, 'names': [[self.bound(export), self.site()]]}
                     names = self.rng.sample(self.names, self.rng.randint(1, min(2, len(self.names))))
                     return {'k': 'star', 'mod': 'vstar%d' % self.nstar, 'names': [[self.bound(n), self.site()] for n in names]}
                 return {'k': 'imp', 'form': self.rng.choice(['import', 'from']), 'name': self.bound(self.bvar()), 'site': self.site()}
@@ -392,6 +413,8 @@ class Rendered(object):
         self.params = {}          # def site -> [(form, name, site)]
         self.star_files = {}      # module name -> text (project files supp analyses)
         self.star_sites = {}      # module name -> {name: site}
+        self.std_stars = {}       # standard-library module name -> {name: site}
+        self.std_vals = []        # (object, site) for the names star-imported from standard-library modules
         self.imp_sites = []       # sites of `import vm<site> as name`
 
 
@@ -452,8 +475,11 @@ def render(body):
         elif k == 'imp':
             out.append(pad + ('import vm%d as %s' % (s['site'], s['name']) if s['form'] == 'import' else 'from vmods import t%d as %s' % (s['site'], s['name'])))
         elif k == 'star':
-            R.star_files[s['mod']] = ''.join('%s = %d\n' % (n, st_) for n, st_ in s['names'])
-            R.star_sites[s['mod']] = {n: st_ for n, st_ in s['names']}
+            if s.get('std'):
+                R.std_stars[s['mod']] = {n: st_ for n, st_ in s['names']}
+            else:
+                R.star_files[s['mod']] = ''.join('%s = %d\n' % (n, st_) for n, st_ in s['names'])
+                R.star_sites[s['mod']] = {n: st_ for n, st_ in s['names']}
             out.append(pad + 'from %s import *' % s['mod'])
         elif k == 'read':
             out.append(pad + reads(s['atoms'], line, len(pad)))
@@ -656,6 +682,9 @@ class MOracle(prog.Oracle):
     def site_of(self, x):
         if isinstance(x, prog.Token):
             return x.site
+        for v, st_ in self.R.std_vals:
+            if v is x:
+                return st_
         if isinstance(x, types.FunctionType):
             s = getattr(x, '_vsite', None)
             if s is None:
@@ -758,6 +787,13 @@ def install_modules(R):
         mod.__all__ = sorted(sites)
         sys.modules[name] = mod
         added.append(name)
+    import importlib
+    R.std_vals = []
+    for name, sites in R.std_stars.items():
+        if name not in sys.modules:
+            added.append(name)      # forgotten again after the run: supp must not find it loaded because the reference run loaded it
+        mod = importlib.import_module(name)
+        R.std_vals.extend((getattr(mod, n), st_) for n, st_ in sites.items())
     return added
 
 
